@@ -1086,14 +1086,14 @@ FINDINGS = {
 FACETS = [
     Facet("text_roundtrip", lambda s, t: rt_case(), check_text_roundtrip, setup=_eop,
           rule="element number >= 1000 or ndot < 0 or exponent outside -3..-5 or empty designator",
-          quick=(6, 700), thorough=(16, 10000)),
+          quick=(6, 500), thorough=(16, 10000)),
     Facet("fields", lambda s, t: fields_case(), check_fields, setup=_eop,
           rule="same rule; two thirds of the cases use non-canonical legal encodings",
-          quick=(6, 600), thorough=(16, 8000)),
+          quick=(6, 450), thorough=(16, 8000)),
     Facet("writer", lambda s, t: writer_case(), check_writer, setup=_eop,
           rule="every case (orbit + metadata drawn as floats, not on the print grid in 3 of 4 cases; date labelled "
                "UTC/TT/TDB/GPS/TAI/UT1; 5 of 8 epochs within 140 s of the turn of the year / a UTC midnight / on day 366)",
-          quick=(6, 500), thorough=(16, 5000)),
+          quick=(6, 400), thorough=(16, 5000)),
     Facet("writer_real_eop", lambda s, t: writer_case(real_eop=True), check_writer, setup=_eop_real,
           rule="every case; real IERS tables (1974-2016): date labelled UTC/TT/TDB/GPS/TAI/UT1, epochs massed on the "
                "turn of the year, UTC midnights, leap-second midnights and day 366",
@@ -1101,14 +1101,14 @@ FACETS = [
     Facet("reject", lambda s, t: reject_case(), check_reject, setup=_eop,
           rule="same rule as text_roundtrip; per case all ~900 digit replacements, ~140 deletions, ~270 "
                "insertions, 28 renumberings and 12 paddings are tried",
-          quick=(8, 40), thorough=(16, 400)),
+          quick=(8, 30), thorough=(16, 400)),
     Facet("from_string", lambda s, t: fs_case(), check_from_string, setup=_eop,
           rule="at least one damaged line and one valid entry in the text",
-          quick=(8, 200), thorough=(16, 3000)),
+          quick=(8, 150), thorough=(16, 3000)),
     Facet("history", lambda s, t: hist_case(), check_history, setup=_eop,
           rule="at least one previously returned orbit was edited in place; after every operation orbit() must be a "
                "fresh object, equal to the first result bit for bit, and write back to the TLE's own text",
-          quick=(8, 150), thorough=(16, 2500)),
+          quick=(8, 100), thorough=(16, 2500)),
     Facet("fuzz", check=check_fuzz, runner=fuzz_runner, setup=_eop,
           rule="the edited text is well-formed for the strict column parser (checked against it and re-written)",
           quick=(1, 0), thorough=(4, FUZZ_RUNS)),
